@@ -676,7 +676,7 @@ def length_wrap_cases():
 # those in which the append moves or overwrites the storage the argument points into: an inline builder that spills (the
 # union is overwritten by the string pointer), a std::string (the caller's, or the one a builder owns after spilling) that
 # reallocates - around the SSO limit 15/16 and at every doubling of the capacity -, a caller's array that spills.
-SBO_SELF_SPILL = True     # an INLINE builder whose self-append makes it spill: before /repo fbd6917 it copied pointer bytes
+SBO_SELF_SPILL = True     # an INLINE builder whose self-append makes it spill: before /repo 230fbe6 it copied pointer bytes
                           # (the union is overwritten by the string pointer before the memcpy; patches/C17-self-append-spill.*)
 
 
